@@ -42,10 +42,25 @@ def tf(text):
 
 
 def inline(text):
-    r = harness().req(kvline('val', expr=text.encode().hex(), conv=0))
+    """the value an inline expression evaluates to; 'data' is what the value PUSHES when it stands in a script (a value whose type says string or
+    opcode pushes its text / its opcode byte, whatever its data field holds)"""
+    r = harness().req(kvline('val', expr=text.encode().hex(), conv=2))
     if 'crash' in r or 'exit' in r:
         raise Violation(('inline', text), 'inline expression %s killed the process: %r' % (text[:80], r), observed=r)
+    if 'data_value' in r:
+        r['data'] = r['data_value']
     return r
+
+
+def inline_in_script(c, expr, want):
+    """the same expression as a token of a bracketed script: the script is the push of the expression's value"""
+    r = inline('[OP_1 %s OP_DROP]' % expr)
+    expect_eq(c, 'inline %s inside a bracketed script' % expr[:60], r.get('data'), (b'\x51' + G_push(want) + b'\x75').hex())
+
+
+def G_push(data):
+    from ..gen import scripts as G
+    return G.push(data, 0)
 
 
 def out_line(r):
@@ -74,7 +89,7 @@ HASH_OPS = {'sha256': 0xa8, 'ripemd160': 0xa6, 'hash256': 0xaa, 'hash160': 0xa9}
 # ---------------------------------------------------------------- cases: (kind, payload...)
 @st.composite
 def cases(draw):
-    k = draw(st.sampled_from(['hash', 'hash', 'hash-str', 'tagged', 'b58', 'b58-corrupt', 'bech32', 'bech32-corrupt', 'bech32-padding', 'compact', 'reverse', 'len', 'addsub', 'addsub-group', 'jacobi', 'addr', 'pubkeys', 'echo']))
+    k = draw(st.sampled_from(['hash', 'hash', 'hash-str', 'tagged', 'b58', 'b58-corrupt', 'bech32', 'bech32-corrupt', 'bech32-padding', 'compact', 'compact-typed', 'reverse', 'reverse-int', 'len', 'addsub', 'addsub-group', 'jacobi', 'addr', 'pubkeys', 'echo']))
     if k == 'hash':
         return (k, draw(st.sampled_from(sorted(HASHES))), draw(blobs))
     if k == 'hash-str':
@@ -85,11 +100,22 @@ def cases(draw):
         return (k, draw(st.one_of(st.binary(min_size=1, max_size=40), st.sampled_from([bytes(21), b'\x00' * 5 + b'\x01', bytes([0]) + bytes(range(20)), b'\x80' + bytes(32), b'\x00' * 40]),
                                   st.sampled_from([196, 199, 200, 201, 253, 520]).flatmap(lambda n: st.binary(min_size=n, max_size=n)))), draw(st.integers(0, 10 ** 6)))
     if k in ('bech32', 'bech32-corrupt'):
-        return (k, draw(st.sampled_from(['bech32-encode', 'bech32m-encode'])), draw(st.one_of(st.binary(min_size=2, max_size=40), st.sampled_from([bytes(20), bytes(32), bytes(range(32))]))), draw(st.integers(0, 10 ** 6)))
+        return (k, draw(st.sampled_from(['bech32-encode', 'bech32m-encode'])), draw(st.one_of(st.binary(min_size=2, max_size=40), st.sampled_from([bytes(20), bytes(32), bytes(range(32))]),
+                                                                                               st.sampled_from([46, 47, 48, 49, 50, 55, 56, 64, 65]).flatmap(lambda n: st.binary(min_size=n, max_size=n)))), draw(st.integers(0, 10 ** 6)))
     if k == 'bech32-padding':
         return (k, draw(st.sampled_from([20, 32, 2, 33, 40])), draw(st.binary(min_size=40, max_size=40)), draw(st.sampled_from(['nonzero', 'extra-group', 'valid'])), draw(st.booleans()))
     if k in ('compact', 'reverse', 'len', 'echo'):
         return (k, draw(blobs))
+    if k == 'compact-typed':
+        kind = draw(st.sampled_from(['str', 'op', 'int']))
+        if kind == 'str':
+            return (k, kind, draw(st.one_of(st.text(alphabet='abcdefghijklmnopqrstuvwxyzGHIJKLMNOPQRSTUVWXYZ_', min_size=1, max_size=70),
+                                            st.sampled_from([252, 253, 254, 300]).map(lambda n: 'hello_' + 'z' * (n - 6)))))
+        if kind == 'op':
+            return (k, kind, draw(st.sampled_from(['OP_DUP', 'OP_HASH160', 'OP_CHECKSIG', 'OP_IF', 'OP_16', 'OP_1', 'OP_NOP', 'OP_CHECKSIGADD'])))
+        return (k, kind, draw(st.one_of(st.integers(17, 2 ** 31 - 1), st.integers(-2 ** 31 + 1, -2), st.sampled_from([17, 127, 128, 255, 256, 1000, 65535, 65536, -1000]))))
+    if k == 'reverse-int':
+        return (k, draw(st.one_of(st.integers(17, 10 ** 17), st.sampled_from([258, 1000, 120, 12345678901, 99]))))
     if k == 'addsub':
         big = st.one_of(st.integers(0, 2 ** 31 - 1), st.integers(0, 2 ** 256 - 1), st.sampled_from([0, 1, 16, 17, 2 ** 255, 2 ** 256 - 1, 2 ** 64, 2 ** 128 - 1]))
         return (k, draw(st.sampled_from(['add', 'sub'])), draw(big), draw(big), draw(st.sampled_from(['dec', 'hex'])))
@@ -211,6 +237,7 @@ def check(c, ctx):
         expect_eq(c, 'tf tagged-hash %s with %d message part(s)' % (tag, len(msgs)), out_line(r), want)
         i = inline('tagged_hash([%s %s])' % (hx(tag.encode()), ' '.join(hx(m) for m in msgs)))
         expect_eq(c, 'inline tagged_hash', i.get('data'), want)
+        inline_in_script(c, 'tagged_hash([%s %s])' % (hx(tag.encode()), ' '.join(hx(m) for m in msgs)), bytes.fromhex(want))
     elif k in ('b58', 'b58-corrupt'):
         _, data, pos = c
         enc = B58.encode_check(data)
@@ -244,14 +271,24 @@ def check(c, ctx):
         const = B32.BECH32_CONST if fn == 'bech32-encode' else B32.BECH32M_CONST
         enc = B32.encode('bcrt', [1] + B32.convertbits(data, 8, 5), const)
         r = tf('%s %s' % (fn, hx(data)))
+        if len(enc) > 90:
+            # BIP173 allows no string of more than 90 characters: the encoder may refuse the value, but a string it does emit must decode to the value
+            cls = 'bech32-over-90-characters'
+            ol = out_line(r)
+            if ol.startswith('"'):
+                r2 = tf('bech32-decode %s' % ol.strip('"'))
+                if out_line(r2) != data.hex():
+                    raise Violation(c, '%s of a %d byte value emits a %d character string that bech32-decode does not turn back into the value (%s)' % (fn, len(data), len(ol) - 2, r2.get('err', '').strip()[-60:]),
+                                    observed=[ol[:40], out_line(r2)[:40], r2.get('err', '')[-80:]], expected='refused, or decode(encode(x)) = x')
+            ctx.case(repr(case_json(c)), True, case_json(c), cls)
+            return
         expect_eq(c, 'tf %s' % fn, out_line(r), '"%s"' % enc)
         if fn == 'bech32-encode':
             i = inline('bech32enc(%s)' % hx(data))
             expect_eq(c, 'inline bech32enc', bytes.fromhex(i.get('str', '')).decode(), enc)
         if k == 'bech32':
             r = tf('bech32-decode %s' % enc)
-            if len(enc) <= 90:
-                expect_eq(c, 'bech32 decode(encode(x))', out_line(r), data.hex())
+            expect_eq(c, 'bech32 decode(encode(x))', out_line(r), data.hex())
         else:
             p = pos % len(enc)
             ALPH = B32.CHARSET + B32.CHARSET.upper() + 'bio1BIO'      # charset symbols, their upper-case forms (mixed case is invalid), non-charset characters
@@ -301,6 +338,34 @@ def check(c, ctx):
         expect_eq(c, 'tf prefix-compact-size on %d bytes' % n, out_line(r), (pre + data).hex())
         i = inline('prefix_compact_size(%s)' % arg)
         expect_eq(c, 'inline prefix_compact_size', i.get('data'), (pre + data).hex())
+    elif k == 'compact-typed':
+        # the argument is a string, an opcode name or a decimal integer: the prefixed value is the bytes that argument stands for
+        _, kind, v = c
+        if kind == 'str':
+            from ..ref.opcodes import BY_NAME
+            if re.fullmatch(r'[0-9a-fA-F]+', v) and len(v) % 2 == 0 or ('OP_' + v) in BY_NAME or v in BY_NAME or v.startswith('x'):
+                return
+            arg, data = v, v.encode()
+        elif kind == 'op':
+            from ..ref.opcodes import BY_NAME
+            arg, data = v, bytes([BY_NAME[v]])
+        else:
+            arg, data = str(v), R.num_enc(v)
+        cls = 'compact-typed:' + kind
+        n = len(data)
+        pre = bytes([n]) if n < 253 else b'\xfd' + n.to_bytes(2, 'little')
+        r = tf('prefix-compact-size %s' % arg)
+        expect_eq(c, 'tf prefix-compact-size on the %s argument %s' % (kind, arg[:40]), out_line(r), (pre + data).hex())
+        i = inline('prefix_compact_size(%s)' % arg)
+        expect_eq(c, 'inline prefix_compact_size(%s) as pushed' % arg[:40], i.get('data'), (pre + data).hex())
+    elif k == 'reverse-int':
+        # "reverse the value according to the type": an integer argument has its decimal digits reversed
+        _, n = c
+        want = int(str(n)[::-1])
+        r = tf('reverse %d' % n)
+        expect_eq(c, 'tf reverse of the integer %d (digits reversed)' % n, out_line(r), str(want))
+        i = inline('reverse(%d)' % n)
+        expect_eq(c, 'inline reverse(%d)' % n, i.get('data'), R.num_enc(want).hex())
     elif k == 'reverse':
         _, data = c
         if not data:
@@ -335,6 +400,7 @@ def check(c, ctx):
         expect_eq(c, 'tf %s %s %s (mod 2^256, little-endian 32-byte result)' % (op, sa[:40], sb[:40]), out_line(r), num_le(want).hex())
         i = inline('%s([%s %s])' % (op, sa, sb))
         expect_eq(c, 'inline %s([a b])' % op, i.get('data'), num_le(want).hex())
+        inline_in_script(c, '%s([%s %s])' % (op, sa, sb), num_le(want))
     elif k == 'addsub-group':
         _, op, a, b, g = c
         want = ((a + b) if op == 'add' else (a - b)) % g
@@ -379,7 +445,8 @@ def check(c, ctx):
                 raise Violation(c, 'addr-to-scriptpubkey turned the base58check string %s (version 0x%02x, %d byte payload) into the script %s' % (addr, ver, plen, out_line(r)), observed=out_line(r), expected='rejected')
             return
         expect_eq(c, 'tf addr-to-scriptpubkey (version 0x%02x)' % ver, out_line(r), spk.hex())
-        if ver == 0x00:
+        if ver in (0x00, 0x05):
+            # (main net versions: the conversion back writes the main net version byte)
             r = tf('scriptpubkey-to-addr %s' % hx(spk))
             expect_eq(c, 'tf scriptpubkey-to-addr', out_line(r), '"%s"' % addr)
             i = inline('spk_to_addr(addr_to_spk(%s))' % addr)
@@ -471,7 +538,7 @@ def run(tier, t0):
     return core.finish(PID, tier, m, RULE, t0, min_nontrivial=2000 if tier == 'quick' else 100000, extra=dict(transform_classes_seen=sorted(seen)),
                        assumptions=['hashlib (OpenSSL) for SHA-256 / RIPEMD-160', 'reference base58 / bech32 / secp256k1 implementations in vf/ref',
                                     'add / sub / jacobi-symbol take their operands as little-endian byte strings (the tool\'s convention: the result of `tf add 17 18` is 23 00..00) and answer in that form',
-                                    'reverse on a decimal argument is digit based and not asserted; inline forms exist for 24 of the 27 transforms (bech32m-encode, len, verify-sig-compact have none)'])
+                                    'reverse of a decimal argument reverses its digits (the tool: "according to the type"); inline forms exist for 24 of the 27 transforms (bech32m-encode, len, verify-sig-compact have none)'])
 
 
 def replay(rec):
